@@ -415,6 +415,15 @@ def atomicNumberToSymbol (T : Tables) (Z : Int) : Option (List Char) :=
 def symbolToAtomicNumber (T : Tables) (s : List Char) : Option Nat :=
   (T.mendel.find? (fun e => e.1 == s)).map (·.2)
 
+/-- lines 464-479 with the NULL test: the error message, or the atomic number -/
+def symbolToAtomicNumberC (T : Tables) (s : Option (List Char)) : Except (List Char) Nat :=
+  match s with
+  | none => .error "Symbol cannot be NULL".toList                                      -- :467-470
+  | some s =>
+    match symbolToAtomicNumber T s with
+    | some z => .ok z
+    | none => .error "Invalid chemical symbol".toList                                  -- :477
+
 /-! ## table precondition of the `bsearch` contract (executed by the driver on every run) -/
 
 def strLt : List Char → List Char → Bool
